@@ -213,6 +213,30 @@ theorem decNumericU_field (dd : DDesc) (scale ref : Int) (s : St) (f suf : Bits)
   simp only [decNumericU, natWidth_ofNat _ h0, St.read, St.pushDesc, hb,
     readUIntOrNone_append f suf h0 h64, St.pushAll, bind, Except.bind, pure, Except.pure]
 
+theorem decNumericU_inv {dd : DDesc} {nbits scale ref : Int} {s s' : St}
+    (h : decNumericU dd nbits scale ref s = .ok s') :
+    ∃ n : Nat, 0 < n ∧ n ≤ 64 ∧ n ≤ s.bits.length ∧ nbits = (n : Int) ∧ natWidth nbits = .ok n := by
+  cases hn : natWidth nbits with
+  | error e => simp only [decNumericU, hn, bind, Except.bind] at h; cases h
+  | ok n =>
+    obtain ⟨h0, hnb⟩ := natWidth_ok hn
+    have hn0 : n ≠ 0 := by omega
+    refine ⟨n, h0, ?_, ?_, hnb, rfl⟩
+    · by_cases h64 : 64 < n
+      · exfalso
+        simp only [decNumericU, hn, St.read, St.pushDesc, readUIntOrNone, readUInt, hn0, if_false,
+          bind, Except.bind] at h
+        cases hr : readBits n s.bits with
+        | error e => rw [hr] at h; cases h
+        | ok x => rw [hr] at h; simp only [h64, if_true] at h; cases h
+      · omega
+    · by_cases hl : s.bits.length < n
+      · exfalso
+        simp only [decNumericU, hn, St.read, St.pushDesc, readUIntOrNone, readUInt, hn0, if_false,
+          readBits_short n s.bits hl, bind, Except.bind] at h
+        cases h
+      · omega
+
 /-! ### encoder primitives -/
 
 theorem toBits_max (n : Nat) : toBits n (2 ^ n - 1) = ones n := by
